@@ -264,6 +264,9 @@ _CONCRETE = (str, bytes, int, float, bool, type(None), tuple, frozenset, dict, l
 EXT_CONSTS = {
     'inspect.CO_VARARGS': 0x04, 'inspect.CO_VARKEYWORDS': 0x08, 'inspect.CO_GENERATOR': 0x20,
     'inspect.CO_COROUTINE': 0x80, 'inspect.CO_ITERABLE_COROUTINE': 0x100, 'inspect.CO_ASYNC_GENERATOR': 0x200,
+    # compiler flags of the ast module
+    'ast.PyCF_ONLY_AST': 0x400, 'ast.PyCF_TYPE_COMMENTS': 0x1000, 'ast.PyCF_ALLOW_TOP_LEVEL_AWAIT': 0x2000,
+    'ast.PyCF_OPTIMIZED_AST': 0x8400,
 }
 
 
